@@ -4,7 +4,7 @@ case kinds
   {"kind": "canon-<how>", "rsmi": r, "backend": "wl"|"nauty", "orig": r0?}   CanonRSMI(backend).canonicalise(r); <how> in
         corpus | renum | reroot | frag | partial | addH | del | dup | regress          (orig = the corpus reaction r was derived from)
   {"kind": "valid-<how>", "mapped": r1, "truth": r2, "x": .., "y": ..}         AAMValidator.smiles_check(r1, r2, RC / ITS); <how> in
-        self | renum | reroot | swap-noneq | swap-eq | swap-other | cross
+        self | renum | reroot | swap-noneq | swap-eq | swap-other | cross | hand
   {"kind": "bal-<how>", "rsmi": r}                                             BalanceReactionCheck.rsmi_balance_check(r); <how> in
         corpus | std | frag | del | dup | charge | dropH | addH | addHfrag | hand
   {"kind": "std", "rsmi": r, "variants": [[how, r'], ...]}                     Standardize().fit: oracle only (pure RDKit)
@@ -411,6 +411,20 @@ HAND_CANON = [
 ]
 
 
+# adversarial validator pairs: same shape and same order DIFFERENCES but other orders / other hydrogen counts or charges
+HAND_VALID = [
+    ("[CH:1][CH:2]>>[CH:1]=[CH:2]", "[CH:1]=[CH:2]>>[CH:1]#[CH:2]"),
+    ("[CH2:1][CH2:2].[OH2:3]>>[CH2:1][CH2:2].[OH2:3]", "[CH2:1]=[CH2:2].[OH2:3]>>[CH2:1]=[CH2:2].[OH2:3]"),
+    ("[CH3:1][OH:2]>>[CH3:1].[OH:2]", "[CH3:1][O-:2]>>[CH3:1].[O-:2]"),
+    ("[CH3:1][OH:2]>>[CH3:1].[OH:2]", "[CH3:1][SH:2]>>[CH3:1].[SH:2]"),
+    ("[CH3:2][OH:1]>>[CH3:2].[OH:1]", "[CH3:1][OH:2]>>[CH3:1].[OH:2]"),
+    ("[CH3:1][Br:2].[OH-:3]>>[CH3:1][OH:3].[Br-:2]", "[CH3:1][Br:3].[OH-:2]>>[CH3:1][OH:2].[Br-:3]"),
+    ("[CH3:1][Br:2].[OH-:3]>>[CH3:1][OH:2].[Br-:3]", "[CH3:1][Br:2].[OH-:3]>>[CH3:1][OH:3].[Br-:2]"),
+    ("[CH2:1]=[CH:2][CH3:3]>>[CH3:1][CH:2]=[CH2:3]", "[CH2:3]=[CH:2][CH3:1]>>[CH3:3][CH:2]=[CH2:1]"),
+    ("[CH2:1]=[CH:2][CH3:3]>>[CH3:1][CH:2]=[CH2:3]", "[CH2:1]=[CH:2][CH3:3]>>[CH2:1]=[CH:2][CH3:3]"),
+]
+
+
 def _canon_cases(how, r, orig=None, src=None, backends=BACKENDS):
     out = []
     for be in backends:
@@ -435,6 +449,9 @@ def gen_cases(tier, rng):
         cases.append(dict(kind="valid-renum", mapped=R.renumber_maps(r, rng), truth=r))
     for r in HAND_BALANCE:
         cases.append(dict(kind="bal-hand", rsmi=r))
+    for i, (m, t) in enumerate(HAND_VALID):
+        cases.append(dict(kind="valid-hand", mapped=m, truth=t, src="hand#%d" % i))
+        cases.append(dict(kind="valid-hand", mapped=R.renumber_maps(m, rng), truth=t, src="hand#%d" % i))
 
     # ---- canonicaliser
     chosen = (rng.sample(us, 10) + rng.sample(ec, 8)) if q else corp
@@ -442,7 +459,7 @@ def gen_cases(tier, rng):
         src = "%s#%d" % (s, i)
         cases += _canon_cases("corpus", r, src=src)
         for how in ("renum", "reroot", "frag"):
-            for _ in range(1 if q else 2):
+            for _ in range(1):
                 try:
                     v = R.rewrite(r, how, rng)
                 except Exception:
@@ -453,7 +470,7 @@ def gen_cases(tier, rng):
         extra += [(h, v) for h, v in G9.unbalanced_variants(r, rng) if h in ("del", "dup")]
         for how, v in extra:
             if v is not None and (not q or rng.random() < 0.5):
-                cases += _canon_cases(how, v, orig=r, src=src, backends=(rng.choice(BACKENDS),) if q else BACKENDS)
+                cases += _canon_cases(how, v, orig=r, src=src, backends=(rng.choice(BACKENDS),))
 
     # ---- validator
     chosen = (rng.sample(us, 22) + rng.sample(ec, 10)) if q else corp
@@ -466,7 +483,7 @@ def gen_cases(tier, rng):
                 cases.append(dict(kind="valid-reroot", mapped=R.reroot(R.renumber_maps(r, rng), rng), truth=r, src=src))
             except Exception:
                 pass
-        for kind, x, y, sw in G9.centre_swaps(r, rng, per_kind=1 if q else 3):
+        for kind, x, y, sw in G9.centre_swaps(r, rng, per_kind=1 if q else 2):
             cases.append(dict(kind="valid-swap-" + kind, mapped=sw, truth=r, x=x, y=y, src=src))
             if kind == "noneq" and (not q or n_ % 3 == 0):
                 # the wrong mapping, renumbered: still wrong
@@ -532,5 +549,20 @@ TESTED_NOT_PROVED = [
     "(larger cases: oracle + reaction-centre matcher only)" % (NAUTY_MAX_ATOMS, ITS_MAX_ATOMS),
 ]
 TECHNIQUE = "Coq proof about an executable Gallina model + per-run correspondence (vm_compute) + independent property oracle"
-LEVEL_TEXT = ("(stub) correspondence + oracle; theorems under construction")
-LEVEL_NOTE = ("RDKit-bound clauses (Standardize, canonical SMILES writer, CalcMolFormula) are monitored oracles, not proved.")
+LEVEL_TEXT = ("Machine-checked proof (Coq) over an executable graph-level model of CanonRSMI.canonicalise (after RDKit parsing, before RDKit "
+              "writing), AAMValidator.smiles_check and the balance formula: for every parsed mapped reaction (balanced or not) and every canonical "
+              "order that lists each reactant atom once (proved in C08 for wl with any colour ranking and for the nauty search) the canonical "
+              "reactant and product graphs are the input graphs renamed by one injective map (canonical position on reactant atoms, fresh numbers "
+              "after them on product atoms without partner), mapping_pairs are exactly the shared atoms, and the ITS of the canonical reaction is "
+              "isomorphic to the ITS of the input; the validator's matcher answers true exactly when the two ITS graphs / reaction centres are "
+              "isomorphic on typesGH and bond-order pairs, hence accepts every renumbering and rejects every swapped mapping that is not "
+              "equivalent; the graph-level balance check is true exactly when all element counts (with hydrogens) and the total charge agree. "
+              "Numbering independence and fixed point are proved at graph level relative to an explicit invariance premise on the graph "
+              "canonicaliser and for reactions whose product atoms all have a reactant partner (_partial). The model is compared with the Python "
+              "code on every run (canonical graphs, mapping pairs, verdicts, reaction centres, element counts; back-ends wl and nauty).")
+LEVEL_NOTE = ("Not proved, only tested on every run (independent oracle: plain RDKit reading + VF2 + Counter): the string-level clauses that live in "
+              "RDKit - Standardize.fit idempotent/invariant, canonical_rsmi fixed point and numbering independence (canonical SMILES writer), "
+              "same unmapped sides after expand_aam/graph_to_smi, CalcMolFormula string equality = equal counts and charge. WL colours are an "
+              "input of the model. Model evaluation is bounded (nauty <= 45 reactant atoms, ITS matcher <= 40 atoms); larger cases are checked "
+              "by the oracle and the reaction-centre matcher. One genuine defect found and repaired (8092e28: product atoms without reactant "
+              "partner were dropped or merged).")
